@@ -870,6 +870,23 @@ fn run_dig(c: &Case, buf: &mut String) {
             let dbg = format!("{e:?}");
             let kind = ident(dbg.strip_prefix("DigFileError(").unwrap_or(&dbg));
             out(buf, &format!("DIG err {kind}"));
+            // the missing names as a set: the message is "Signals a, b found in tests but not found
+            // in circuit", the names are joined with ", " in HashSet order and contain no white
+            // space themselves
+            let msg = format!("{e}");
+            if let (true, Some(list)) = (
+                kind == "MissingSignals",
+                msg.strip_prefix("Signals ")
+                    .and_then(|m| m.strip_suffix(" found in tests but not found in circuit")),
+            ) {
+                let mut names: Vec<&str> = list.split(", ").collect();
+                names.sort();
+                names.dedup();
+                out(
+                    buf,
+                    &format!("MISSING {}", names.iter().map(|s| nm(s)).collect::<Vec<_>>().join(" ")),
+                );
+            }
         }
         Ok(Ok(file)) => {
             out(buf, "DIG ok");
